@@ -468,6 +468,24 @@ def c08(tier, mi, only_aggregates=False, only_arms=False):
     return v1 + v2, cov
 
 
+def prebuild(mi):
+    """Setup step: compile the per-arm programs of both configurations ahead of the checks that run them
+    (C06, C07, C08, C13). Nothing is judged here; a program that does not compile is the checks' business."""
+    arms = parse_arms(os.path.join(mi["repo"], "src", "interface", "macros.rs"))
+    seen = {}
+    for a in arms:
+        seen.setdefault(arm_name(a), a)
+    n = 0
+    for release in (False, True):
+        rlib, deps = real_rlib(release)
+        pre = "rel_" if release else ""
+        progs = {(pre + "arm_" + name): gen_arm_program(a) for name, a in seen.items()}
+        progs.update({(pre + "cap_" + name): gen_namecap_program(a) for name, a in seen.items()})
+        progs.update({(pre + "agg_" + name): gen_aggregate_program(a) for name, a in seen.items()})
+        n += len(build_many(progs, rlib, deps))
+    return n
+
+
 def _c08_profile(tier, mi, only_aggregates, release, only_arms=False):
     repo = mi["repo"]
     arms = parse_arms(os.path.join(repo, "src", "interface", "macros.rs"))
